@@ -466,7 +466,8 @@ def _check_method(B, obj, what, case, sy, q, Q, tmpdir, rng):
         return None
     if what == "w_W_cap":
         from sympy.physics.wigner import wigner_3j
-        files = (os.path.join(tmpdir, "w.dat"), os.path.join(tmpdir, "wcap.npy")) if case.endswith("files") else (None, None)
+        files = (os.path.join(tmpdir, "w.dat"), os.path.join(tmpdir, "wcap.npy")) if case.endswith("files") else \
+            ((os.path.join(tmpdir, "w.npy"), os.path.join(tmpdir, "wcap.txt")) if case.endswith("files2") else (None, None))
         got_w, got_c = obj.w_W_cap(coarse_graining=cg, outputw=files[0], outputwcap=files[1])
         want = np.zeros((T, N))
         for m1 in range(-l, l + 1):
@@ -478,9 +479,17 @@ def _check_method(B, obj, what, case, sy, q, Q, tmpdir, rng):
             return f"w_l differs from eq. (6): max error {np.max(np.abs(np.asarray(got_w) - want))}"
         if not _close(got_c, want * n2 ** (-1.5), rel=1e-8, abs_=1e-12):
             return f"w^_l differs from w_l (sum_m |q_lm|^2)^(-3/2): max error {np.max(np.abs(np.asarray(got_c) - want * n2 ** (-1.5)))}"
-        if files[0] and not (_close(np.load(files[0] + ".npy"), got_w) and _close(np.load(files[1]), got_c)
-                             and _close(np.loadtxt(files[0]).reshape(T, N), got_w, rel=1e-4, abs_=1e-6)):
-            return "saved files differ from the returned arrays"
+        if files[0]:
+            # every file requested for w holds w, every file requested for w^ holds w^ (binary <name>[.npy]; text twin for .dat / .txt names, 6 decimals)
+            for fn, arr, nm in ((files[0], got_w, "w"), (files[1], got_c, "w^")):
+                binf = fn if fn.endswith(".npy") else fn + ".npy"
+                if not os.path.exists(binf) or not _close(np.load(binf), arr):
+                    return f"binary file requested for {nm} ({os.path.basename(binf)}) differs from the returned array"
+                if fn.endswith((".dat", ".txt")):
+                    txt = np.loadtxt(fn).reshape(T, N)
+                    if np.max(np.abs(txt - np.asarray(arr))) > 0.5e-6 * (1 + 1e-6):
+                        return (f"text file requested for {nm} ({os.path.basename(fn)}) differs from the returned array: max |file - returned| = "
+                                f"{np.max(np.abs(txt - np.asarray(arr)))} (written precision 6 decimals)")
         return None
     if what == "spatial_corr":
         # eq. (8) through the conditional_gr contract (C13): per frame, every unordered pair once, weight Re sum_m q_lm(i) conj q_lm(j),
@@ -944,7 +953,11 @@ class WCap(Unit):
 
     def cases(self):
         # concrete degrees: the loop over the (2l+1)^3 index triples of Wignerindex is executed, the particle / frame loops are summarised
-        return ["l=2/local/files", "l=2/coarse/nofile", "l=3/coarse/nofile", "l=4/local/nofile", "l=4/coarse/files", "l=6/coarse/nofile", "l=6/local/files"]
+        # `files`: outputw ends in .dat (binary file + text twin), outputwcap in .npy; `files2`: the other way round (text twin of w^)
+        return ["l=2/local/files", "l=2/coarse/files2", "l=2/coarse/nofile", "l=3/coarse/nofile", "l=4/local/nofile", "l=4/coarse/files", "l=6/coarse/nofile", "l=6/local/files"]
+
+    def thorough_cases(self):
+        return ["l=4/local/files2", "l=5/coarse/nofile", "l=6/coarse/files2"]
 
     def setup(self, ctx, case):
         ls, cg, of = case.split("/")
@@ -953,7 +966,7 @@ class WCap(Unit):
         ctx.assume(T >= 1)
         ctx.assume(N >= 1)
         o, small, large, M = _boo_self(ctx, l, T, N)
-        files = (None, None) if of == "nofile" else ("w.dat", "wcap.npy")
+        files = (None, None) if of == "nofile" else (("w.dat", "wcap.npy") if of == "files" else ("w.npy", "wcap.txt"))
         inp = dict(l=l, T=T, N=N, q=large if cg == "coarse" else small, files=files, n=ctx.int("n"), i=ctx.int("i"))
         return [o], dict(coarse_graining=(cg == "coarse"), outputw=files[0], outputwcap=files[1]), inp
 
@@ -981,8 +994,10 @@ class WCap(Unit):
         if fw is None:
             yield "files=returned", len(writes) == 0
         else:
-            want_w = [("np.save", fw, w), ("np.savetxt", fw, w), ("np.save", fc, wcap)]
-            good = len(writes) == 3 and all(e[0] == k and e[1] == f for e, (k, f, _) in zip(writes, want_w))
+            # every file requested for w holds w, every file requested for w^ holds w^ (the text twin exactly for names ending in .dat / .txt)
+            want_w = [("np.save", fw, w)] + ([("np.savetxt", fw, w)] if fw.endswith((".dat", ".txt")) else []) + \
+                     [("np.save", fc, wcap)] + ([("np.savetxt", fc, wcap)] if fc.endswith((".dat", ".txt")) else [])
+            good = len(writes) == len(want_w) and all(e[0] == k and e[1] == f for e, (k, f, _) in zip(writes, want_w))
             if not good:
                 yield "files=returned", False
             else:
